@@ -91,6 +91,8 @@ ALPHABET = [
     b'AUTH  ANONYMOUS',                        # 26 two blanks before the mechanism name
     b'AUTH\tANONYMOUS',                        # 27 a tab is not a separator: unknown command
     b'DATA ' + h(b'a b  c'),                   # 28
+    b'AUTH DBUS_COOKIE_SHA1 ' + h(b'1000'),    # 29 the user given as a uid
+    b'AUTH EXTERNAL ' + h(b'0'),               # 30
 ]
 SWEEP_SYMS = [1, 10, 3, 4, 5, 6, 7, 13, 16]
 
@@ -517,7 +519,7 @@ def scenario(ctx):
     else:
         n = 1 + ds.choose(40 if ds.flag(0.3) else 10)
         w = [1, 4, 3, 4, 3, 3, 3, 1, 3, 2, 5, 2, 1, 2, 2, 1, 1, 1, 0.5, 1, 0.5, 1, 1, 1, 0.7, 0.7, 0.7,
-             0.5, 0.7]
+             0.5, 0.7, 1, 0.7]
         if cfg == 'scripted':
             w[1] = w[2] = w[8] = w[9] = 0.3
         else:
